@@ -515,6 +515,9 @@ func runC16(ctx *Ctx) {
 	if ctx.Want(n + 10) {
 		c16Binary(ctx, n+10)
 	}
+	if ctx.Want(n + 40) {
+		c16DebugWrapper(ctx, n+40)
+	}
 	for c := 0; c < ctx.N(2, 20); c++ {
 		if ctx.Want(n + 50 + c) {
 			c16HTTPBodies(ctx, n+50+c, ctx.Sub(n+50+c))
